@@ -173,3 +173,5 @@ impl StrRef {
     pub uninterp spec fn bytes(&self) -> Seq<u8>;
     #[verifier::external_body] pub fn as_bytes(&self) -> (r: &[u8]) ensures r@ == self.bytes(), r@.len() == self.n() { unimplemented!() }
 }
+
+pub use core::ops::{Bound, Range, RangeBounds};
